@@ -96,6 +96,10 @@ SOURCES = SourceIndex()
 #   callables created by the interpreter
 # ----------------------------------------------------------------------------
 
+def identity_key(k):
+    """an object hashed and compared by identity: as a dict key it is concrete whatever its fields hold"""
+    return (not isinstance(k, (Sym, tuple, list, dict, set, frozenset)) and type(k).__eq__ is object.__eq__ and type(k).__hash__ is object.__hash__)
+
 class BoundMethod(object):
     """a python function bound to a receiver, found in class `defclass`"""
     __slots__ = ('func', 'self', 'defclass')
@@ -105,6 +109,24 @@ class BoundMethod(object):
         self.defclass = defclass
     def __repr__(self):
         return "<BoundMethod %s of %s>" % (getattr(self.func, '__qualname__', self.func), type(self.self).__name__)
+    # bound methods compare equal when function and receiver are the same (list.remove(obj.method) relies on it)
+    def __eq__(self, other):
+        if isinstance(other, BoundMethod):
+            return other.func is self.func and other.self is self.self
+        if isinstance(other, types.MethodType):
+            return other.__func__ is self.func and other.__self__ is self.self
+        return NotImplemented
+    def __ne__(self, other):
+        r = self.__eq__(other)
+        return r if r is NotImplemented else not r
+    def __hash__(self):
+        return hash((id(self.func), id(self.self)))
+    @property
+    def __self__(self):
+        return self.self
+    @property
+    def __func__(self):
+        return self.func
 
 class Closure(object):
     """a def/lambda evaluated by the interpreter"""
@@ -307,6 +329,13 @@ class Interp(object):
         a, b = self.force(a), self.force(b)
         if a is b and not isinstance(a, (SReal, float)):
             return True
+        if isinstance(a, (BoundMethod, types.MethodType)) or isinstance(b, (BoundMethod, types.MethodType)):
+            # bound methods: same function, same receiver (whichever way they are represented)
+            if not (isinstance(a, (BoundMethod, types.MethodType)) and isinstance(b, (BoundMethod, types.MethodType))):
+                return False
+            fa, ra = (a.func, a.self) if isinstance(a, BoundMethod) else (a.__func__, a.__self__)
+            fb, rb = (b.func, b.self) if isinstance(b, BoundMethod) else (b.__func__, b.__self__)
+            return fa is fb and ra is rb
         sa, sb = isinstance(a, Sym), isinstance(b, Sym)
         if sa or sb:
             if a is None or b is None:
@@ -781,7 +810,10 @@ class Interp(object):
                 return obj.self
             if name == '__func__':
                 return obj.func
-            return getattr(obj.func, name)
+            try:
+                return getattr(obj.func, name)
+            except AttributeError as e:
+                raise PyRaise(AttributeError(str(e)))
         if isinstance(obj, Closure):
             if name == '__name__':
                 return obj.__name__
@@ -1606,7 +1638,7 @@ class Interp(object):
             except Exception as e:
                 raise PyRaise(e)
         if isinstance(obj, dict):
-            if isinstance(idx, Sym) or has_sym(idx):
+            if isinstance(idx, Sym) or (has_sym(idx) and not identity_key(idx)):
                 for k in list(obj.keys()):
                     if self.truth(self.eq(k, idx)):
                         return obj[k]
@@ -1656,7 +1688,7 @@ class Interp(object):
                 raise PyRaise(e)
             return
         if isinstance(obj, dict):
-            if isinstance(idx, Sym) or has_sym(idx):
+            if isinstance(idx, Sym) or (has_sym(idx) and not identity_key(idx)):
                 for k in list(obj.keys()):
                     if self.truth(self.eq(k, idx)):
                         obj[k] = value
@@ -1699,7 +1731,7 @@ class Interp(object):
             hi = idx.stop if not isinstance(idx.stop, Sym) else self._concretize_bound(idx.stop, n)
             del obj[slice(lo, hi, idx.step)]
             return
-        if isinstance(obj, dict) and (isinstance(idx, Sym) or has_sym(idx)):
+        if isinstance(obj, dict) and (isinstance(idx, Sym) or (has_sym(idx) and not identity_key(idx))):
             for k in list(obj.keys()):
                 if self.truth(self.eq(k, idx)):
                     del obj[k]
